@@ -273,6 +273,12 @@ func checkC05(c *Ctx) {
 			}
 		}
 	}
+	for _, d := range longStringDocs(r) {
+		run("long-string-after-others", d, false)
+	}
+	for _, d := range truncatedObjects(r, c.N(40, 400)) {
+		run("truncated-big-object", d, false)
+	}
 	for _, d := range bigUnbalanced(r, c.N(30, 300)) {
 		run("big-unbalanced", d, false)
 	}
